@@ -108,6 +108,18 @@ def run(report):
             if row["dry"] and any(e[0] in ("spawn", "script", "bt") for e in evs):
                 report.failure("c14-dry-run-executes", "--dry-run executed a command",
                                {"row": row, "justfile": print_row_justfile(c), "observed": evs})
+        if row["script"]:
+            # documented rule for shebang recipes: the script is printed iff not --quiet and (--dry-run or `@name`)
+            echoed = ["echo", row["lp"] + "[S0.0] x"] in r["events"]
+            want = row["vq"] != "quiet" and (row["dry"] or row["rq"])
+            if echoed != want:
+                report.failure("c14-script-table:%s" % key_of(row), "shebang recipe echo differs from the documented rule: row=%s echoed=%s" % (row, echoed),
+                               {"row": row, "justfile": print_row_justfile(c), "argv": R.cmdline(c["cfg"], c["invs"]),
+                                "expected_echo": want, "observed": r["events"], "stderr": r["stderr"]})
+                continue
+            if row["dry"] and any(e[0] in ("spawn", "script", "bt") for e in r["events"]):
+                report.failure("c14-dry-run-executes", "--dry-run executed a script",
+                               {"row": row, "justfile": print_row_justfile(c), "observed": r["events"]})
         if me != r["events"] or m["exit"] != r["exit"]:
             report.failure("c14-model-table:%s" % key_of(row), "model and implementation disagree on a truth-table row (oracle holds)",
                            {"correspondence": "C14 truth table vs Just.Run.runMain", "row": row,
